@@ -29,6 +29,24 @@ def path_eval(ctx, target, env, start_block=None, stop_at=None):
         if cur == f.exit:
             return False
         b = f.blocks[cur]
+        # locals assigned on the way take the value of their right-hand side in the finite domain
+        for e in b.elems:
+            n = f.nodes[e]
+            tgt = None
+            rhs = None
+            if n['k'] == 'DeclStmt' and len(n['decls']) == 1 and n['c'] and n['c'][0] >= 0:
+                tgt, rhs = ('var', n['decls'][0]), n['c'][0]
+            elif n['k'] == 'BinaryOperator' and n.get('op') == '=':
+                l = ctx.tt.t(n['c'][0], resolve_refs=False)
+                if l[0] == 'var':
+                    tgt, rhs = l, n['c'][1]
+            if tgt is not None and len(var_defs(f, tgt[1])) > 1:
+                v = eval_order(resolve_locals(ctx, ctx.tt.t(rhs), full), full)
+                if v is None:
+                    full.pop(tgt, None)
+                    full[('unknown', tgt)] = True
+                else:
+                    full[tgt] = v
         if b.elems and f.nodes[b.elems[-1]]['k'] in ('CXXThrowExpr', 'ReturnStmt') and cur != tpos[0]:
             if f.nodes[b.elems[-1]]['k'] == 'CXXThrowExpr':
                 return False
@@ -927,13 +945,19 @@ def _base_region_ok(ctx, nid, allowed=None):
 
 
 def _first_elem(f, stmt):
-    best = None
-    for d in f.descendants(stmt):
-        if d in f.pos:
-            r = f.region_of_block(f.pos[d][0])
-            if best is None or len(r) < len(best[1]):
-                best = (d, r)
-    return best[0] if best else None
+    """the CFG element of a statement that is evaluated first (its block dominates the blocks of all others)"""
+    cands = [d for d in f.descendants(stmt) if d in f.pos]
+    if not cands:
+        return None
+    best = cands[0]
+    for d in cands[1:]:
+        pb, pd = f.pos[best], f.pos[d]
+        if pd[0] == pb[0]:
+            if pd[1] < pb[1]:
+                best = d
+        elif f.block_dominates(pd[0], pb[0]):
+            best = d
+    return best
 
 
 def rule_bulk_complete(m):
@@ -1243,4 +1267,119 @@ def rule_label_subscripts(m):
                                  'inserts a default label entry, which getEdgeLabel / getEdgeMultiplicity / operator== then see'
                                  % f.expr_text(e.node)[:60]))
     res.require_sites(8, 'label-store subscripts')
+    return res
+
+
+# ------------------------------------------------------------------------------------------------
+def rule_forwarding(m):
+    """F-FWD: vertex arguments are forwarded in order (directed family and algorithms)."""
+    from .model import DIRECTED_FAMILY
+    from .rules_val import VERTEX_TYPES
+    res = RuleResult('F-FWD', 'where a function of the directed family or an algorithm forwards two of its own vertex '
+                              'arguments to another BaseGraph function, it forwards them in the same order (source stays '
+                              'source, destination stays destination); the tabled exception is the second call of the '
+                              'addReciprocal* functions, which must be exactly the reversed pair')
+    for f in m.fns:
+        if f.is_lambda:
+            continue
+        if not (f.record in DIRECTED_FAMILY or (f.record is None and f.tname.startswith(NS + 'algorithms::'))):
+            continue
+        vp = [pd for ix, pd in enumerate(f.params) if ix < len(f.ptypes) and f.ptypes[ix] in VERTEX_TYPES]
+        if len(vp) < 2:
+            continue
+        tt = Terms(f)
+        calls = []
+        for nid, g in m.callees(f):
+            n = f.nodes[nid]
+            if n['k'] not in ('CXXMemberCallExpr', 'CallExpr') or 'args' not in n:
+                continue
+            seq = []
+            for ax, a in enumerate(n['args']):
+                if ax >= len(g.ptypes) or g.ptypes[ax] not in VERTEX_TYPES:
+                    continue
+                t = tt.t(a)
+                if t[0] == 'var' and t[1] in vp:
+                    seq.append((ax, vp.index(t[1])))
+            if len(seq) >= 2:
+                calls.append((nid, g, seq))
+        if not calls:
+            continue
+        reciprocal = f.name.startswith('addReciprocal')
+        ordered = []
+        reversed_ = []
+        for nid, g, seq in calls:
+            idx = [b for a, b in sorted(seq)]
+            if idx == sorted(idx):
+                ordered.append(nid)
+            elif idx == sorted(idx, reverse=True):
+                reversed_.append(nid)
+            else:
+                reversed_.append(nid)
+        for nid, g, seq in calls:
+            res.sites += 1
+            is_rev = nid in reversed_
+            if not is_rev:
+                res.ok(dict(function=f.display(), call=f.expr_text(nid)[:70], order='preserved') if len(res.samples) < 10 else None,
+                       fn=f.display())
+            elif reciprocal and len(ordered) == 1 and len(reversed_) == 1 and f.can_reach_forward(ordered[0], nid):
+                res.ok(dict(function=f.display(), call=f.expr_text(nid)[:70], order='reversed (reciprocal second call)'), fn=f.display())
+            else:
+                res.fail(Finding('F-FWD', f.display(), 'arguments of %s swapped' % g.name, f.nloc(nid),
+                                 '`%s` forwards the vertex arguments of %s in swapped order: source and destination are '
+                                 'exchanged in a directed operation' % (f.expr_text(nid)[:70], f.display())))
+        if reciprocal:
+            res.sites += 1
+            delegates = [g for nid, g, seq in calls if g.name.startswith('addReciprocal')]
+            if delegates and len(calls) == 1 and not reversed_:
+                res.ok(None, fn=f.display())
+            elif len(ordered) == 1 and len(reversed_) == 1:
+                res.ok(None, fn=f.display())
+            else:
+                res.fail(Finding('F-FWD', f.display(), 'reciprocal pair of insertions', f.where(),
+                                 'a reciprocal insertion must consist of one insertion of (a,b) and one of (b,a) (found %d ordered, '
+                                 '%d reversed calls)' % (len(ordered), len(reversed_))))
+    res.require_sites(40, 'forwarding call sites')
+    return res
+
+
+def rule_observer_loops(m):
+    """F-UNCOND: the tabulating loop of an observer runs on every path."""
+    res = RuleResult('F-UNCOND', 'the loop in which an observer tabulates edges runs on every path; only a boolean flag '
+                                 'parameter selecting an alternative computation, or an emptiness test of the size / edge '
+                                 'count, may bypass it')
+    names = set(OBS_TABLE) | {LUG + '::getDegree', LUG + '::getDegrees', UMG + '::getDegrees', LDG + '::getOutDegrees',
+                              LDG + '::getReversedGraph', LUG + '::getDirectedGraph', LDG + '::operator=='}
+    for tn in sorted(names):
+        for f in m.by_tname.get(tn, []):
+            ctx = Ctx(m, f)
+            loops = [n for n in f.nodes if n['k'] in ('CXXForRangeStmt', 'ForStmt', 'WhileStmt')]
+            outer = [n for n in loops if not any(n['i'] in f.descendants(o['i']) and o['i'] != n['i'] for o in loops)]
+            if not outer:
+                continue
+            flags = {('var', p) for ix, p in enumerate(f.params) if f.cptypes[ix] == 'bool'}
+            for n in outer:
+                res.sites += 1
+                anchor = n.get('cond', -1) if n['k'] in ('ForStmt', 'WhileStmt') else n.get('rangestmt', -1)
+                fe = _first_elem(f, anchor if anchor >= 0 else n['i'])
+
+                def allowed(t, pol):
+                    x = t
+                    while x[0] == 'un' and x[1] == '!':
+                        x = x[3]
+                    if x in flags:
+                        return True
+                    if x[0] == 'bin' and x[1] in ('==', '!=', '>') and strip_cast(x[3]) == ('int', 0):
+                        l = strip_cast(x[2])
+                        if is_size_term(m, f, l, ctx.tt) or (l[0] in ('field', 'member') and m.role_of_field(l[-1]) == 'N') or \
+                                (l[0] == 'mcall' and l[1].endswith('::getEdgeNumber')):
+                            return True
+                    return False
+                good, dep = _base_region_ok(ctx, fe, allowed)
+                if good:
+                    res.ok(dict(function=f.display(), loop=f.nloc(n['i'])) if len(res.samples) < 8 else None, fn=f.display())
+                else:
+                    res.fail(Finding('F-UNCOND', f.display(), 'observer loop bypassed', f.nloc(n['i']),
+                                     'the tabulating loop is skipped when `%s` is %s: the observer then reports a graph without '
+                                     'those edges' % (f.expr_text(f.branch_atom(dep[0]))[:70], dep[1] == 0)))
+    res.require_sites(40, 'observer loops')
     return res
